@@ -24,6 +24,10 @@ RECOVERED = {"C01": "out", "C12": "out", "C04": "out", "C05": "out", "C07": "out
 
 def seq_spec(prop, sweep, quick, thorough, rule, after_op=None, tier_kw=None, pre_op=None, **kw):
     def gen(rng, tier, seed):
+        if prop == "C10" and rng.random() < (0.002 if tier == "quick" else 0.004):
+            from .pagination import gen_deep_chain
+
+            return gen_deep_chain(rng, "C10", seed, "links")
         g = Gen(rng, prop, tier)
         c = g.case(seed)
         if prop in RECOVERED and rng.random() < 0.15:
@@ -33,6 +37,10 @@ def seq_spec(prop, sweep, quick, thorough, rule, after_op=None, tier_kw=None, pr
         return c
 
     def run(case):
+        if case.get("deep_chain"):
+            from .pagination import run_deep_chain
+
+            return run_deep_chain(case, prop)
         if case.get("recovered"):
             from .recovered import run_recovered
 
